@@ -7,6 +7,7 @@ import MotoModel.Props.C05
 import MotoModel.Props.C07
 import MotoModel.Proofs.DiskWriteRead
 import MotoModel.Proofs.DiskExtract
+import MotoModel.Proofs.DiskSmall
 import MotoModel.Props.C04
 namespace Moto.C02
 open Moto Moto.Disk
@@ -158,5 +159,46 @@ example : OrdinarySrc (Tape.str "a.bas") := by
     controller.py, translated from the source on every run, is the model's function for all sizes -/
 theorem generated_required_slots (n k : Nat) : Gen.Fn.computeRequiredSlots n k = computeRequiredSlots n k :=
   GenFn.computeRequiredSlots_eq n k
+
+/-- **C02 (a batch that fits on the first side: nothing is lost)**: when every source names a
+    readable file with an ordinary 8.3 name, the blocks they need sum to at most 157 and there are
+    at most 112 of them, `--create` returns 0 and stores every one of them on side 0; `--extract` of
+    the archive then returns 0 and writes exactly as many files as there were sources, each holding
+    the exact data of one of the sources -/
+theorem small_batch_roundtrip (fl : Flavour) (w : Tape.World) (verbose : Bool) (archive : Str) (items : List (Str × Bytes))
+    (hall : ∀ p ∈ items, Storable w p.1 p.2) (hord : ∀ p ∈ items, OrdinarySrc p.1)
+    (hB : batchBlocks items ≤ 157) (hS : items.length ≤ 112) (verbose2 : Bool) (into : Option Str) :
+    ∃ img, ImgOk img
+      ∧ (create fl w verbose archive (items.map (·.1))).status = .ret 0
+      ∧ (create fl w verbose archive (items.map (·.1))).writes = [(archive, save fl img)]
+      ∧ fileCount img = items.length
+      ∧ (∀ k, 1 ≤ k → k < 4 → img.getD k [] = freshSide)
+      ∧ (extract fl verbose2 archive into (save fl img)).status = .ret 0
+      ∧ (extract fl verbose2 archive into (save fl img)).writes.length = items.length
+      ∧ (∀ k j r c, k < 4 → j < 112 → imgFileAt img k j = some (r, c) →
+          ∃ src ∈ items.map (·.1), ∃ name ext kind flag, Offers w src name ext kind flag c ∧ IsRecordOf r name ext kind flag c.length) := by
+  obtain ⟨st, hst, hok, hcount, hsides⟩ := create_small_batch w verbose items hall hB hS
+  have hclean : ∀ s ∈ items.map (·.1), CleanSrc s := fun s hs => by
+    obtain ⟨p, hp, rfl⟩ := List.mem_map.mp hs; exact (hall p hp).2.2.2.2
+  have hords : ∀ s ∈ items.map (·.1), OrdinarySrc s := fun s hs => by
+    obtain ⟨p, hp, rfl⟩ := List.mem_map.mp hs; exact hord p hp
+  obtain ⟨st2, hst2, _, _, hof⟩ := performCore_files w verbose _ (items.map (·.1)) fresh_img_ok hclean
+  rw [hst] at hst2
+  cases hst2
+  have hnice : ∀ k, k < 4 → NiceSide (st.img.getD k []) := by
+    apply nice_after hof _ hords
+    intro k hk j f hj hf
+    have := fresh_no_file k j hk hj
+    unfold imgFileAt at this
+    rw [this] at hf; cases hf
+  obtain ⟨hx1, hx2⟩ := extract_consistent fl verbose2 archive into st.img hok hnice
+  refine ⟨st.img, hok, ?_, ?_, hcount, hsides, hx1, ?_, ?_⟩
+  · unfold create performOn; rw [if_neg (by simp), hst]
+  · unfold create performOn; rw [if_neg (by simp), hst]
+  · rw [hx2, ← fileCount_eq_extracted st.img hok.1, hcount]
+  · intro k j r c hk hj hf
+    rcases hof k j r c hk hj hf with h | h
+    · rw [fresh_no_file k j hk hj] at h; cases h
+    · exact h
 
 end Moto.C02
